@@ -19,11 +19,19 @@
   expect; first byte `00` of such a mark is one of the nine shadowed values (marker), any other value
   below 0x80 outside the nine is answered and accepted (`example` below, mark `01 00 00 28`).
 
-  Later segment of a flow whose sticky id is ONC-RPC/TCP (`forced = some 5`, not generated by the harness
-  for RPC): `judgeC16_sticky_stale_witness` — the second call on a connection is answered with the reply to
-  the FIRST call (finding of Thm/C16, `rpc_tcp_second_call_stale`), and `judgeC16` fails on it WITHOUT
-  marker ("ONC-RPC reply differs from the prescribed one"): a genuine defect that the model shares, correctly
-  reported by the judge — not a false alarm.
+  A whole connection: `rpc_tcp_flow_all_answered` — first call identified outside the shadow set, then any
+  number of further calls, one per segment: every one answered with the prescribed reply for its own xid.
+
+  Later segment of a flow whose sticky id is ONC-RPC/TCP (`forced = some 5`): `judgeC16_accepts_model_sticky`
+  — on a control block whose stored parser state is the initial one (`RPC {}`: the state stored after ANY
+  answered call since `repl_tcp` resets it, `C16.rpc_tcp_state_reset`; the harness judges a later call only
+  when the previous message of the flow was answered, which is exactly this situation) the verdict on the
+  model's answer is "ok", FULL STRENGTH: no shadow hypothesis (in sticky mode the matcher is not consulted),
+  whatever the segment contains.  The hypothesis on the stored state is needed (`sticky_fresh_needed`: after an
+  incomplete call the next segment continues that call).  Regression: `judgeC16_sticky_second_call` — the
+  second call of a connection gets the reply for its own xid and is accepted with `nontrivial = true` (before
+  the repair of src/proto/rpc.rs it got the FIRST call's reply and the judge failed on it without marker:
+  formerly `judgeC16_sticky_stale_witness`).
 -/
 import Masscanned.Proofs.J4.Judge
 import Masscanned.Thm.C10E2E
@@ -119,6 +127,81 @@ theorem judgeC16_fails_only_shadowed_tcp (cfg : Cfg) (env : Env) (ci ci' : Clien
     exact .inl (judgeC16_accepts_model_outside_shadow_tcp cfg env ci ci' tcb' p reply htcp hck hci hrun hs)
   | true => exact judgeC16_shadowed _ hs
 
+/-! ### later segment of a flow whose sticky id is ONC-RPC/TCP -/
+
+/-- **C16 judge, sticky mode** (the harness reads the sticky id from the program's table and passes
+    `forced = some 5`; the model's answer is the handler call `protoHandle … ID_RPC_TCP …` on this segment
+    alone): on a control block whose stored parser state is the initial one — `RPC {}` as after any answered
+    call, or not yet created — the verdict is "ok".  FULL STRENGTH: any client info carrying the contacted
+    address and port, any payload, no shadow hypothesis, no gate hypothesis (the handler is behind the gate). -/
+theorem judgeC16_accepts_model_sticky (cfg : Cfg) (env : Env) (ci ci' : ClientInfo) (t : Tcb) (tcb' : Option Tcb)
+    (p : Bytes) (reply : Option Bytes) (hci : CiOk ci)
+    (hst : t.protoState = none ∨ t.protoState = some (.rpc {}))
+    (hrun : protoHandle cfg env ID_RPC_TCP ci (some t) p = .ok (ci', tcb', reply)) :
+    (judgeC16 (obsOfForced ci p ci' reply ID_RPC_TCP)).ok = true := by
+  obtain ⟨ip, hip⟩ := hci.dst
+  obtain ⟨dp, hdp, hlt⟩ := hci.dport
+  simp only [judgeC16, refOf, obsOfForced, obsOf]
+  by_cases htcp : ci.transport = some 6
+  · simp only [htcp, decide_true, if_true, true_and]
+    split
+    · rfl
+    · rename_i h4
+      cases hc : parseCall (p.drop 4) with
+      | none => rfl
+      | some c =>
+        simp only
+        obtain ⟨r, body, hrep, hmark, hok, _⟩ :=
+          C16.rpc_reply_tcp_every_call cfg.ovf ci p c ip dp (by omega) hc hip hdp hlt
+        rw [show ID_RPC_TCP = PROTO_RPC_TCP from rfl, C16.protoHandle_rpc_of_fresh cfg env ci t hst, hrep] at hrun
+        simp only [Except.ok.injEq, Prod.mk.injEq] at hrun
+        obtain ⟨_, _, rfl⟩ := hrun
+        simp only [hmark, hip, hdp, Option.getD_some, hok, if_true]
+        rfl
+  · simp only [htcp, decide_false, Bool.false_eq_true, false_and, if_false]
+    cases parseCall p with
+    | none => rfl
+    | some c => rfl
+
+/-- hence also in the weaker form shared by the other judges -/
+theorem judgeC16_sticky_ok_or_marked (cfg : Cfg) (env : Env) (ci ci' : ClientInfo) (t : Tcb) (tcb' : Option Tcb)
+    (p : Bytes) (reply : Option Bytes) (hci : CiOk ci)
+    (hst : t.protoState = none ∨ t.protoState = some (.rpc {}))
+    (hrun : protoHandle cfg env ID_RPC_TCP ci (some t) p = .ok (ci', tcb', reply)) :
+    okOrMarked (judgeC16 (obsOfForced ci p ci' reply ID_RPC_TCP)) :=
+  .inl (judgeC16_accepts_model_sticky cfg env ci ci' t tcb' p reply hci hst hrun)
+
+/-! ### a whole connection -/
+
+/-- **every call of a connection is answered**: on a fresh flow, a first segment holding a complete call
+    that is identified as ONC-RPC/TCP outside the shadow set (the hypotheses of
+    `judgeC16_accepts_model_outside_shadow_tcp`), followed by ANY number of further segments each holding a
+    complete call: `proto::repl`, fed the segments one after the other with the flow's control block
+    (`C11.feed`), never panics and answers the k-th call with the prescribed reply to the k-th call — its own
+    xid (`C16.AllAnswered`); the block ends identified as ONC-RPC/TCP with the initial parser state. -/
+theorem rpc_tcp_flow_all_answered (cfg : Cfg) (env : Env) (ci : ClientInfo) (hck : ¬(ci.transport = some 6 ∧ ci.cookie = none))
+    (ip : Ip) (dp : Nat) (hip : ci.ipDst = some ip) (hdp : ci.portDst = some dp) (hlt : dp < 65536)
+    (p1 : Bytes) (c1 : RpcCall) (h1 : C16.TcpCall p1 c1) (hr : refStream p1 = some ID_RPC_TCP)
+    (hns : shadowed p1 = false)
+    (cs : List (Bytes × RpcCall)) (hcs : ∀ pc ∈ cs, C16.TcpCall pc.1 pc.2) :
+    ∃ t rs, C11.feed cfg env ci {} (p1 :: cs.map (·.1)) = .ok (t, rs) ∧
+      C16.AllAnswered ip dp ((p1, c1) :: cs) rs ∧ C16.FreshRpc t := by
+  have hk : refStreamK2 p1 = some ID_RPC_TCP := by
+    rw [C10.refStreamK2_eq_of_not_shadowed p1 hns]; exact hr
+  obtain ⟨st, hst⟩ := repl_stream_some cfg env ci p1 _ hck hk
+  obtain ⟨r, body, hrep, hmark, hok, _⟩ :=
+    C16.rpc_reply_tcp_every_call cfg.ovf ci p1 c1 ip dp h1.1 h1.2 hip hdp hlt
+  have hfirst : protoRepl cfg env ci (some {}) p1 =
+      .ok (ci, some (C16.resetBlock { protoId := ID_RPC_TCP, smackState := st }), some r) := by
+    rw [hst, show ID_RPC_TCP = PROTO_RPC_TCP from rfl,
+      C16.protoHandle_rpc_of_fresh cfg env ci _ (.inl rfl), hrep]
+    rfl
+  obtain ⟨t, rs, hfeed, hall, hfresh, _⟩ :=
+    C16.rpc_tcp_calls_all_answered cfg env ci hck ip dp hip hdp hlt cs hcs
+      (C16.resetBlock { protoId := ID_RPC_TCP, smackState := st }) (C16.freshRpc_resetBlock rfl)
+  exact ⟨t, some r :: rs, by rw [C11.feed_cons_ok cfg env ci ci _ _ p1 _ _ hfirst, hfeed],
+    ⟨⟨r, body, rfl, hmark, hok⟩, hall⟩, hfresh⟩
+
 /-! ### non-vacuity, the hypotheses are needed, the sticky case -/
 section examples
 open C10E2E
@@ -170,21 +253,50 @@ theorem gate_needed :
       !v.ok && v.clause == "ONC-RPC call not answered") = true := by
   decide +kernel
 
-/-- STICKY CASE (`forced = some 5`; not generated by the harness for ONC-RPC): the second call on a TCP
-    connection — `callT` first, then a NULL call with xid 0x22222222, judged as a later segment of a flow
-    whose sticky id is ONC-RPC/TCP — is answered with the reply to the FIRST call (xid 0x01020304), and
-    `judgeC16` fails on the model's answer WITHOUT marker.  A genuine defect of the program that the
-    model shares (`C16.rpc_tcp_second_call_stale`), correctly reported. -/
-theorem judgeC16_sticky_stale_witness :
-    shadowed (C16.tcpMsg (C16.mkCall 0x22222222 100000 2 0)) = false ∧
+/-- the second call of the sticky case: a NULL call with xid 0x22222222 -/
+def callT2 : Bytes := C16.tcpMsg (C16.mkCall 0x22222222 100000 2 0)
+
+/-- STICKY CASE, regression (`forced = some 5`): the second call on a TCP connection — `callT` first, then
+    `callT2`, judged as a later segment of a flow whose sticky id is ONC-RPC/TCP.  The block stored after
+    the first reply has the sticky id and the initial parser state (hypotheses of
+    `judgeC16_accepts_model_sticky`); the second call is answered with the reply for ITS OWN xid and the
+    verdict is "ok" with `nontrivial = true`.  (Before the repair of `repl_tcp` the answer carried the
+    first call's xid 0x01020304 and the verdict failed, unmarked.) -/
+theorem judgeC16_sticky_second_call :
+    shadowed callT2 = false ∧
     (match protoRepl C18.cfgE C18.envE ciTcp (some {}) callT with
      | .ok (_, some t1, some _) =>
-       t1.protoId == ID_RPC_TCP &&
-       (match protoRepl C18.cfgE C18.envE ciTcp (some t1) (C16.tcpMsg (C16.mkCall 0x22222222 100000 2 0)) with
+       t1.protoId == ID_RPC_TCP && decide (t1.protoState = some (.rpc {})) &&
+       (match protoRepl C18.cfgE C18.envE ciTcp (some t1) callT2 with
         | .ok (ci', _, reply) =>
-          let v := judgeC16 (obsOfForced ciTcp (C16.tcpMsg (C16.mkCall 0x22222222 100000 2 0)) ci' reply ID_RPC_TCP)
-          !v.ok && v.clause == "ONC-RPC reply differs from the prescribed one" &&
-          (reply.map (fun r => (r.drop 4).take 4) == some [1, 2, 3, 4])
+          let v := judgeC16 (obsOfForced ciTcp callT2 ci' reply ID_RPC_TCP)
+          v.ok && v.nontrivial &&
+          (reply.map (fun r => hexOf (r.take 8)) == some "8000001822222222")
+        | .error _ => false)
+     | _ => false) = true := by
+  decide +kernel
+
+/-- hypotheses of `rpc_tcp_flow_all_answered` on `callT` followed by `callT2` -/
+example : C16.TcpCall callT ⟨0x01020304, 2, 100000, 4, 3⟩ ∧ refStream callT = some ID_RPC_TCP ∧
+    shadowed callT = false ∧ C16.TcpCall callT2 ⟨0x22222222, 2, 100000, 2, 0⟩ :=
+  ⟨⟨by decide, by decide +kernel⟩, by decide +kernel, by decide +kernel, ⟨by decide, by decide +kernel⟩⟩
+
+/-- the theorem applied to the second call -/
+example (t : Tcb) (ht : t.protoState = some (.rpc {})) (ci' : ClientInfo) (tcb' : Option Tcb) (reply : Option Bytes)
+    (hrun : protoHandle C18.cfgE C18.envE ID_RPC_TCP ciTcp (some t) callT2 = .ok (ci', tcb', reply)) :
+    (judgeC16 (obsOfForced ciTcp callT2 ci' reply ID_RPC_TCP)).ok = true :=
+  judgeC16_accepts_model_sticky _ _ _ _ t _ _ _ ciOk_ciTcp (.inr ht) hrun
+
+/-- the hypothesis on the stored state is needed: on a block storing the parser state reached after the
+    first 10 bytes of a call (a cut call whose rest is still to come — such a segment is not judged by the
+    harness), a complete call is read as the continuation of the pending one; what comes back is not the
+    prescribed reply to it and the verdict fails, unmarked -/
+theorem sticky_fresh_needed :
+    (match protoRepl C18.cfgE C18.envE ciTcp (some { protoId := ID_RPC_TCP }) (callT.take 10) with
+     | .ok (_, some t1, none) =>
+       decide (t1.protoState ≠ some (.rpc {})) &&
+       (match protoHandle C18.cfgE C18.envE ID_RPC_TCP ciTcp (some t1) callT2 with
+        | .ok (ci', _, reply) => !(judgeC16 (obsOfForced ciTcp callT2 ci' reply ID_RPC_TCP)).ok
         | .error _ => false)
      | _ => false) = true := by
   decide +kernel
@@ -196,6 +308,10 @@ end examples
 #print axioms judgeC16_accepts_model_outside_shadow_tcp
 #print axioms judgeC16_fails_only_shadowed_tcp
 #print axioms gate_needed
-#print axioms judgeC16_sticky_stale_witness
+#print axioms rpc_tcp_flow_all_answered
+#print axioms judgeC16_accepts_model_sticky
+#print axioms judgeC16_sticky_ok_or_marked
+#print axioms judgeC16_sticky_second_call
+#print axioms sticky_fresh_needed
 
 end Masscanned.C16Judge
